@@ -62,6 +62,7 @@ Next ==
        ELSE IF ev.e = "FlagList" THEN Judge(ev, FlagListExpected(ev), FlagListObserved(ev), <<"FlagList", ev.accepted, Len(ev.flags)>>)
        ELSE IF ev.e = "DefaultFlags" THEN Judge(ev, DefaultExpected(ev), DefaultObserved(ev), <<"DefaultFlags">>)
        ELSE IF ev.e = "MonoPair" THEN Judge(ev, MonoExpected(ev), MonoObserved(ev), <<"MonoPair", ev.okA, ev.okB>>)
+       ELSE IF ev.e = "VerboseRefused" THEN Judge(ev, [code |-> 1, sig |-> 0, stdout |-> ""], [code |-> ev.code, sig |-> ev.sig, stdout |-> ev.stdout], <<"VerboseRefused", ev.mode>>)
        ELSE IF ev.e = "Crashed" THEN
             /\ divs' = Append(divs, [line |-> l, id |-> ev.e, what |-> "crash (signal, abort or uncaught exception)", expected |-> <<>>,
                                      observed |-> [crashed |-> ev, previous |-> IF l > 1 THEN Tr[l - 1] ELSE ev]])
